@@ -29,6 +29,10 @@ def _index_of(cases, lo, hi, c):
     return 0
 
 
+class _CaseTimeout(BaseException):
+    pass
+
+
 class Stage:
     """cases(tier, rng) -> iterable of cases (codec-encodable python values)
     check(case)      -> None when the property holds on the case, else a short description
@@ -38,7 +42,7 @@ class Stage:
 
     def __init__(self, name, prop, cases, check, bound, classify=None, nontrivial=None,
                  parallel=True, exhaustive=False, assumptions=(), max_report=5, weight=None,
-                 exact_file=None, exact_applies=None, case_key=None):
+                 exact_file=None, exact_applies=None, case_key=None, case_timeout=120.0):
         self.name, self.prop, self.cases, self.check = name, prop, cases, check
         self.bound, self.classify, self.nontrivial = bound, classify, nontrivial
         self.parallel, self.exhaustive = parallel, exhaustive
@@ -50,16 +54,37 @@ class Stage:
         self.exact_file, self.exact_applies = exact_file, exact_applies or (lambda case: True)
         self.case_key = case_key or repr
         self._exact = None
+        self.case_timeout = case_timeout      # seconds per case: a case that does not terminate is reported, the check does not hang
 
     def _run_chunk(self, chunk):
+        import signal
+        import threading
         out = []
-        for case in chunk:
-            try:
-                d = self.check(case)
-            except Exception as ex:
-                d = 'check raised %s: %s' % (type(ex).__name__, str(ex)[:200])
-            if d is not None:
-                out.append((case, d))
+        limit = self.case_timeout
+        use_alarm = limit and threading.current_thread() is threading.main_thread() and hasattr(signal, 'setitimer')
+
+        def on_alarm(signum, frame):
+            raise _CaseTimeout()
+        if use_alarm:
+            old = signal.signal(signal.SIGALRM, on_alarm)
+        try:
+            for case in chunk:
+                try:
+                    if use_alarm:
+                        signal.setitimer(signal.ITIMER_REAL, limit)
+                    d = self.check(case)
+                except _CaseTimeout:
+                    d = 'did not terminate within %g s' % limit
+                except Exception as ex:
+                    d = 'check raised %s: %s' % (type(ex).__name__, str(ex)[:200])
+                finally:
+                    if use_alarm:
+                        signal.setitimer(signal.ITIMER_REAL, 0)
+                if d is not None:
+                    out.append((case, d))
+        finally:
+            if use_alarm:
+                signal.signal(signal.SIGALRM, old)
         return out
 
     def run(self, tier, seed, known):
@@ -123,18 +148,13 @@ class Stage:
 
     def replay(self, v):
         case = codec.dec(v['args'])
-        try:
-            d = self.check(case)
-        except Exception as ex:
-            d = 'check raised %s' % type(ex).__name__
+        r = self._run_chunk([case])
+        d = r[0][1] if r else None
         return d is None, 'case %r -> %s' % (case, d or 'ok')
 
     def witness_fails(self, k):
         case = codec.dec(k['witness'])
-        try:
-            return self.check(case) is not None
-        except Exception:
-            return True
+        return bool(self._run_chunk([case]))
 
 
 def _short(case):
